@@ -33,8 +33,14 @@ def _gen_lookup(rng, size):
     keys = list(range(start, start + n_rows))
     rng.shuffle(keys)                       # dict order != sorted order
     n_genes = rng.randint(1, size + 3)
-    return dict(indptr_to_indices={k: np.array(sorted(rng.sample(range(n_genes), rng.randint(0, n_genes))),
-                                               dtype=np.int64) for k in keys})
+    out = {k: np.array(sorted(rng.sample(range(n_genes), rng.randint(0, n_genes))), dtype=np.int64) for k in keys}
+    if keys and rng.random() < 0.4:
+        # gene indices beyond 255 / 65535 in a row that is neither the last nor the longest: the index
+        # array has to be wide enough for the largest gene index of ANY row, however few entries there are
+        big = rng.choice([256, 300, 65536, 70000])
+        k = rng.choice(keys)
+        out[k] = np.array(sorted(set(out[k].tolist()) | {big, big + rng.randint(1, 5)}), dtype=np.int64)
+    return dict(indptr_to_indices=out)
 
 
 def _rows_ok(lookup, result):
@@ -54,9 +60,11 @@ def _rows_ok(lookup, result):
 
 contract(
     M + '_lookup_to_sparse',
-    properties=['C11'], mode='bounded',
+    # C04: the packed chunk must be the same whatever pairs happen to share the chunk (the chunking
+    # follows the worker count)
+    properties=['C11', 'C04'], mode='bounded',
     native=dict(gen=_gen_lookup, env=dict(rows_ok=_rows_ok), weight=3,
-                bound='<= 6 pairs (dict order shuffled), <= 7 genes, empty rows, no row at all'),
+                bound='<= 6 pairs (dict order shuffled), <= 7 genes, empty rows, no row at all; gene indices beyond 255 / 65535 in one row'),
     params=dict(indptr_to_indices='Dict[Int,Arr[Int]]'),
     returns='Tuple[Arr[Int],Arr[Int]]',
     ensures=[
